@@ -51,6 +51,44 @@ Theorem C15_readback : forall cl n k d v,
 Proof. exact readback. Qed.
 Print Assumptions C15_readback.
 
+(* ---- construction: TypeConfig.__init__ (declared defaults go through set) *)
+
+(* a configuration that has just been built - declared defaults, None for what is not
+   required, then the keyword arguments - only holds values of the declared types   *)
+Theorem C15_new_typed : forall cl defs c kw n,
+  cfg_new cl defs c kw = Ok n -> fields_typed cl n /\ n_cls n = c.
+Proof. exact new_typed. Qed.
+Print Assumptions C15_new_typed.
+
+(* a parameter that was never assigned holds its declared default after the documented
+   coercions, at any depth (Param[float] = 1 holds 1.0, Param[List[float]] = [1, 2]
+   holds [1.0, 2.0], Param[Path] = "d" holds Path("d")), not the default as written   *)
+Theorem C15_new_default_coerced : forall cl defs c n i d dv x,
+  cfg_new cl defs c [] = Ok n ->
+  nth_error (class_args cl c) i = Some d -> nth_error defs i = Some (Some dv) ->
+  dv <> VNone -> coerced cl (a_ty d) dv x ->
+  cfg_get n i = Some x.
+Proof. exact new_default_coerced. Qed.
+Print Assumptions C15_new_default_coerced.
+
+(* ... which is exactly what assigning the default would store *)
+Theorem C15_new_default_as_assigned : forall cl defs c n i d dv n0,
+  cfg_new cl defs c [] = Ok n ->
+  nth_error (class_args cl c) i = Some d -> nth_error defs i = Some (Some dv) ->
+  a_generated d = false -> a_constant d = false ->
+  n_cls n0 = c -> n_sealed n0 = false ->
+  exists n1, cfg_set cl n0 i dv = (n1, Stored) /\ cfg_get n1 i = cfg_get n i.
+Proof. exact new_default_as_assigned. Qed.
+Print Assumptions C15_new_default_as_assigned.
+
+(* over any history of assignments, submits and validations on a set of objects
+   (task values are accepted according to the job flags at the time of the assignment),
+   every parameter of every object keeps holding a value of its declared type        *)
+Theorem C15_history_typed : forall cl ops s,
+  heap_typed cl (s_heap s) -> heap_typed cl (s_heap (sess_run cl s ops)).
+Proof. exact sess_run_typed. Qed.
+Print Assumptions C15_history_typed.
+
 (* ---- submission: ConfigInformation.validate before registration (repaired code) *)
 
 (* a required, non-generated value missing at any node reachable through
@@ -69,6 +107,17 @@ Theorem C15_complete_accepted : forall cl h registry root,
   submit cl h registry root = (registry ++ [root], Accepted).
 Proof. exact complete_accepted. Qed.
 Print Assumptions C15_complete_accepted.
+
+(* the same in any state of a session - whichever objects already have their job flag
+   set, e.g. a task whose own submit was rejected and which was then given as a
+   parameter of the task submitted now: submit raises and registers nothing         *)
+Theorem C15_session_missing_rejected : forall cl s root init n m,
+  nth_error (s_heap s) root = Some n ->
+  let h' := upd_nth (s_heap s) root (set_init n init) in
+  reach objs cl h' root m -> lacks_required cl h' m ->
+  exists s', sess_step cl s (OSubmit root init) = (s', Rejected) /\ s_reg s' = s_reg s.
+Proof. exact session_missing_rejected. Qed.
+Print Assumptions C15_session_missing_rejected.
 
 (* the walk with an explicit stack used above is the recursive method: whatever
    the recursive validate() answers (it did not exhaust its recursion budget),
